@@ -63,7 +63,7 @@ impl Ctx {
     }
     fn begin(&mut self, n: u32, new_line: String, scan_every: usize) {
         self.ex.begin_case();
-        self.ex.tt = if n >= 1 && n <= 6 { Some(TT { n }) } else { None };
+        self.ex.tt = if n >= 1 && n <= 6 { Some(TT::ident(n)) } else { None };
         self.ex.scan_every = scan_every;
         self.op(new_line);
     }
@@ -109,7 +109,7 @@ fn build_all3(cx: &mut Ctx) -> Vec<usize> {
 }
 
 fn rand_fn(cx: &mut Ctx, n: u32) -> u64 {
-    let tt = TT { n };
+    let tt = TT::ident(n);
     let r = cx.rng.next();
     // mix of dense random tables and structured ones (cubes, few minterms)
     match cx.rng.below(4) {
@@ -139,7 +139,7 @@ pub fn s_mk(cx: &mut Ctx) {
         let h = hs[f as usize];
         cx_op!(cx, format!("node 1 {} {}", h, h));
         let nh = cx_op!(cx, format!("not {}", h));
-        if (TT { n: 3 }).top_var(f).unwrap() > 1 {
+        if TT::ident(3).top_var(f).unwrap() > 1 {
             cx_op!(cx, format!("node 1 {} {}", h, nh));
             cx_op!(cx, format!("node 1 {} {}", nh, h));
             cx_op!(cx, format!("node 1 {} 0", nh));
@@ -364,6 +364,26 @@ pub fn s_conn(cx: &mut Ctx) {
             let r = cx_op!(cx, format!("{} {}", op, items.join(" ")));
             hs.push(r);
         }
+        // expressions compiled from literal Rust source: rustc decides how they are read
+        for k in 0..crate::exec::COMPILED_TOKENS.len() {
+            let h: Vec<usize> = (0..4).map(|_| *cx.rng.pick(&hs)).collect();
+            let toks: Vec<String> = crate::exec::COMPILED_TOKENS[k]
+                .split(' ')
+                .map(|t| match t {
+                    "a" => format!("h{}", h[0]),
+                    "b" => format!("h{}", h[1]),
+                    "c" => format!("h{}", h[2]),
+                    "d" => format!("h{}", h[3]),
+                    x => x.to_string(),
+                })
+                .collect();
+            let r1 = cx_op!(cx, format!("expr {}", toks.join(" ")));
+            let r2 = cx_op!(cx, format!("exprc {} {}", k, toks.join(" ")));
+            if !cx.reply().starts_with("panic") && cx.ex.env[r1] != cx.ex.env[r2] {
+                let m = format!("`{}` compiled by rustc gives {}, the token reader gives {}", crate::exec::COMPILED_TOKENS[k], crate::exec::show_ref(cx.ex.env[r2]), crate::exec::show_ref(cx.ex.env[r1]));
+                cx.ex.fail(&["C03"], m);
+            }
+        }
         for _ in 0..60 {
             let d = 1 + cx.rng.below(4) as u32;
             let e = gen_expr(cx, &hs, d);
@@ -532,6 +552,198 @@ fn any_lits(cx: &mut Ctx, n: u32) -> String {
         out.swap(i, j);
     }
     out.iter().map(|l| l.to_string()).collect::<Vec<_>>().join(" ")
+}
+
+/// boundary values of the variable type (`u32`; literals are `i32`)
+const VAR_POOL: &[u64] = &[
+    1, 2, 3, 7, 1 << 15, 1 << 16, (1 << 16) + 1, (1 << 30) - 1, 1 << 30, (1 << 30) + 1, (1 << 31) - 2, (1 << 31) - 1, 1 << 31, (1 << 31) + 1, (1 << 31) + 5,
+    3 << 30, 4_000_000_000, (1 << 32) - 2, (1 << 32) - 1,
+];
+
+/// histories like `hist`, over variables numbered at the limits of `u32` / `i32` instead of 1..n:
+/// the truth-table oracle works on positions, `vmap` tells it which number each position carries
+pub fn s_hugevar(cx: &mut Ctx) {
+    let cases = if cx.thorough { 2500 } else { 60 };
+    for ci in 0..cases {
+        let n = 2 + cx.rng.below(4) as usize;
+        // i32-safe cases may use the literal-based operations as well
+        let safe = ci % 3 == 0;
+        let pool: Vec<u64> = VAR_POOL.iter().copied().filter(|&v| !safe || v < (1 << 31)).collect();
+        let mut vm: Vec<u64> = vec![];
+        while vm.len() < n + 1 {
+            let v = if cx.rng.chance(1, 6) { 1 + cx.rng.below(if safe { (1 << 31) - 1 } else { (1 << 32) - 1 }) } else { *cx.rng.pick(&pool) };
+            if !vm.contains(&v) {
+                vm.push(v);
+            }
+        }
+        let outside = vm.pop().unwrap();
+        if safe && ci % 2 == 0 && !vm.contains(&((1 << 31) - 1)) && outside != (1 << 31) - 1 {
+            vm[0] = (1 << 31) - 1; // the largest variable a literal can name
+        }
+        vm.sort();
+        let sb = 5 + cx.rng.below(6);
+        let bb = cx.rng.below(4.min(sb));
+        let cb = cx.rng.below(5);
+        cx.ex.begin_case();
+        cx.ex.scan_every = 1;
+        cx.ex.tt = None;
+        cx_op!(cx, format!("vmap {}", vm.iter().map(|v| v.to_string()).collect::<Vec<_>>().join(" ")));
+        if ci % 7 == 3 {
+            cx_op!(cx, format!("newdefault {}", 10 + cx.rng.below(6)));
+        } else {
+            cx_op!(cx, format!("new {} {} {}", sb, bb, cb));
+        }
+        let len = if cx.thorough { 400 } else { 200 };
+        let mut vars = vec![];
+        for &v in &vm {
+            vars.push(cx_op!(cx, format!("var {}", v)));
+        }
+        // position (1..=n+1, the last one outside the universe) -> number
+        let num = |p: usize| -> u64 { if p <= n { vm[p - 1] } else { outside } };
+        for step in 0..len {
+            let live = cx.live();
+            let pick = |cx: &mut Ctx| -> usize {
+                if cx.rng.chance(1, 2) && live.len() > 8 {
+                    live[live.len() - 1 - cx.rng.below(8) as usize]
+                } else {
+                    *cx.rng.pick(&live)
+                }
+            };
+            let (a, b, c) = (pick(cx), pick(cx), pick(cx));
+            let v = num(1 + cx.rng.below(n as u64 + 1) as usize);
+            let lits = |cx: &mut Ctx, shuffle: bool, upto: usize| -> String {
+                let mut out: Vec<i64> = vec![];
+                for p in 1..=upto {
+                    if cx.rng.chance(1, 2) {
+                        out.push(if cx.rng.chance(1, 2) { num(p) as i64 } else { -(num(p) as i64) });
+                    }
+                }
+                if !shuffle {
+                    out.sort_by_key(|l| l.unsigned_abs());
+                } else {
+                    for i in (1..out.len()).rev() {
+                        let j = cx.rng.below(i as u64 + 1) as usize;
+                        out.swap(i, j);
+                    }
+                }
+                out.iter().map(|l| l.to_string()).collect::<Vec<_>>().join(" ")
+            };
+            let literal_ok = safe && outside < (1 << 31);
+            match cx.rng.below(40) {
+                0..=5 => {
+                    cx_op!(cx, format!("ite {} {} {}", a, b, c));
+                }
+                6..=9 => {
+                    let op = *cx.rng.pick(&["and", "or", "xor", "eq", "imply"]);
+                    cx_op!(cx, format!("{} {} {}", op, a, b));
+                }
+                10 => {
+                    cx_op!(cx, format!("not {}", a));
+                }
+                11 => {
+                    cx_op!(cx, format!("var {}", num(1 + cx.rng.below(n as u64) as usize)));
+                }
+                12 | 13 => {
+                    cx_op!(cx, format!("subst {} {} {}", a, v, cx.rng.below(2)));
+                }
+                14 | 15 => {
+                    let l = lits(cx, false, n + 1);
+                    cx_op!(cx, format!("substm {} {}", a, l));
+                }
+                16 => {
+                    if literal_ok {
+                        let l = lits(cx, false, n + 1);
+                        cx_op!(cx, format!("cofcube {} {}", a, l));
+                    }
+                }
+                17..=19 => {
+                    cx_op!(cx, format!("compose {} {} {}", a, v, b));
+                }
+                20 | 21 => {
+                    cx_op!(cx, format!("constrain {} {}", a, b));
+                }
+                22 | 23 => {
+                    cx_op!(cx, format!("restrict {} {}", a, b));
+                }
+                24 => {
+                    cx_op!(cx, format!("itec {} {} {}", a, b, c));
+                    cx_op!(cx, format!("implies {} {}", a, b));
+                }
+                25 => {
+                    cx_op!(cx, format!("topcof {} {}", a, v));
+                }
+                26 | 38 => {
+                    // every stored variable below 2^31: the literal-valued queries are defined
+                    if vm.iter().all(|&x| x < (1 << 31)) {
+                        cx_op!(cx, format!("onesat {}", a));
+                        cx_op!(cx, format!("paths {}", a));
+                    }
+                }
+                27 | 28 => {
+                    cx_op!(cx, format!("size {}", a));
+                }
+                29 => {
+                    cx_op!(cx, format!("desc {} {}", a, b));
+                }
+                30 | 31 => {
+                    cx_op!(cx, format!("bracket {}", a));
+                }
+                32 => {
+                    cx_op!(cx, format!("dot {} {} {}", a, b, a));
+                }
+                33 | 34 => {
+                    if literal_ok {
+                        let l = lits(cx, true, n);
+                        let op = if cx.rng.chance(1, 2) { "cube" } else { "clause" };
+                        cx_op!(cx, format!("{} {}", op, l));
+                    }
+                }
+                35 => {
+                    cx_op!(cx, format!("low {}", a));
+                    cx_op!(cx, format!("high {}", a));
+                }
+                36 => {
+                    let e = gen_expr(cx, &[a, b, c], 2);
+                    cx_op!(cx, format!("expr {}", e));
+                }
+                37 => {
+                    // a node built directly: variable above both children
+                    let p = 1 + cx.rng.below(n as u64) as usize;
+                    let vnum = num(p);
+                    let cands: Vec<usize> = live.iter().copied().filter(|&h| cx.ex.top_var_of(cx.ex.env[h]) > vnum).collect();
+                    if cands.len() >= 2 {
+                        let (lo, hi) = (*cx.rng.pick(&cands), *cx.rng.pick(&cands));
+                        cx_op!(cx, format!("node {} {} {}", vnum, lo, hi));
+                    }
+                }
+                _ => {
+                    let k = cx.rng.below(6);
+                    let mut roots: Vec<usize> = (0..k).map(|_| pick(cx)).collect();
+                    if cx.rng.chance(1, 2) {
+                        roots.extend(vars.iter().copied().filter(|&i| cx.ex.live[i]));
+                    }
+                    let s: Vec<String> = roots.iter().map(|r| r.to_string()).collect();
+                    cx_op!(cx, format!("gc {}", s.join(" ")));
+                    cx.op("dump".into());
+                }
+            }
+            if step % 8 == 0 {
+                cx.op("digest".into());
+            }
+        }
+        if vm.iter().all(|&x| x < (1 << 31)) {
+            for &h in &vars {
+                if cx.ex.live[h] {
+                    cx_op!(cx, format!("onesat {}", h));
+                    cx_op!(cx, format!("paths {}", h));
+                }
+            }
+        }
+        cx.end();
+        if ci == 0 {
+            cx.notes.push(format!("first history: variables {:?} (+ {} outside), storage_bits {}", vm, outside, sb));
+        }
+    }
 }
 
 /// C05 / C17: every alive/dead pattern of a single hash chain (one bucket), then rebuild
@@ -1086,6 +1298,79 @@ pub fn s_cache(cx: &mut Ctx) {
     }
 }
 
+/// Szudzik unpairing on [0, 2^64): the (a, b) with pairing(a, b) = z, both below 2^32
+fn unpair(z: u64) -> (u64, u64) {
+    let mut s = (z as f64).sqrt() as u64;
+    while s.checked_mul(s).map_or(true, |q| q > z) {
+        s -= 1;
+    }
+    while (s + 1).checked_mul(s + 1).map_or(false, |q| q <= z) {
+        s += 1;
+    }
+    let r = z - s * s;
+    if r < s {
+        (r, s)
+    } else {
+        (s, r - s)
+    }
+}
+
+/// C18 / C07: the operation cache with its real key type, including pairs of *different* keys
+/// whose wrapped 64-bit hashes are equal (constructed, not found by chance)
+pub fn s_kcache(cx: &mut Ctx) {
+    let cases = if cx.thorough { 2000 } else { 60 };
+    for _ in 0..cases {
+        cx.ex.begin_case();
+        let bits = cx.rng.below(6);
+        cx_op!(cx, format!("ck.new {}", bits));
+        let uni = 2 + cx.rng.below(6);
+        let kinds = ["ite", "con", "res"];
+        for s in 0..120u64 {
+            let kind = kinds[cx.rng.below(3) as usize];
+            let (f, g, h) = (2 + cx.rng.below(uni), 2 + cx.rng.below(uni), 2 + cx.rng.below(uni));
+            match cx.rng.below(12) {
+                0..=3 => {
+                    cx_op!(cx, format!("ck.insert {} {} {} {} {}", kind, f, g, h, 2 + cx.rng.below(1000)));
+                }
+                4..=7 => {
+                    cx_op!(cx, format!("ck.get {} {} {} {}", kind, f, g, h));
+                }
+                8 | 9 => {
+                    // hash twins: a = pair(f,g), a' = 2^64-1-a gives a*a+a = a'*a'+a' (mod 2^64)
+                    let (f, g) = ((1u64 << 31) + cx.rng.below(1 << 31), 2 + cx.rng.below(1 << 32 - 1));
+                    let h = 2 + cx.rng.below(1 << 31);
+                    let a = if f < g { g.wrapping_mul(g).wrapping_add(f) } else { f.wrapping_mul(f).wrapping_add(f).wrapping_add(g) };
+                    let (f2, g2) = unpair(u64::MAX - a);
+                    if f2 >= 2 && g2 >= 2 && f2 < (1 << 32) && g2 < (1 << 32) {
+                        cx_op!(cx, format!("ck.insert ite {} {} {} {}", f, g, h, 2 + s));
+                        cx_op!(cx, format!("ck.get ite {} {} {}", f2, g2, h));
+                        cx_op!(cx, format!("ck.get ite {} {} {}", f, g, h));
+                        cx_op!(cx, format!("ck.insert ite {} {} {} {}", f2, g2, h, 3 + s));
+                        cx_op!(cx, format!("ck.get ite {} {} {}", f, g, h));
+                    }
+                }
+                10 => {
+                    // Constrain and Restrict keys over the same pair hash alike
+                    cx_op!(cx, format!("ck.insert con {} {} 0 {}", f, g, 2 + s));
+                    cx_op!(cx, format!("ck.get res {} {} 0", f, g));
+                    cx_op!(cx, format!("ck.get con {} {} 0", f, g));
+                }
+                _ => {
+                    cx.op("ck.clear".into());
+                }
+            }
+            if s % 8 == 0 {
+                cx.op("ck.dump".into());
+            }
+        }
+        cx.op("ck.dump".into());
+        if cx.samples.len() < 3 {
+            let start = *cx.ex.case_starts.last().unwrap();
+            cx.samples.push(cx.ex.lines[start..].iter().take(10).cloned().collect());
+        }
+    }
+}
+
 /// C19: RawTable histories over small key universes with adversarial hashes
 pub fn s_raw(cx: &mut Ctx, dbg: bool) {
     let cases = if cx.thorough { 4000 } else { 70 };
@@ -1416,7 +1701,9 @@ pub fn run_suite(name: &str, cx: &mut Ctx) -> bool {
         "count" => s_count(cx),
         "export" => s_export(cx),
         "table" => s_table(cx),
+        "hugevar" => s_hugevar(cx),
         "cache" => s_cache(cx),
+        "kcache" => s_kcache(cx),
         "raw" => s_raw(cx, cfg!(debug_assertions)),
         "eda" => s_eda(cx),
         _ => return false,
@@ -1425,5 +1712,5 @@ pub fn run_suite(name: &str, cx: &mut Ctx) -> bool {
 }
 
 pub const ALL_SUITES: &[&str] = &[
-    "mk", "ite3", "conn", "hist", "gc_chain", "gc_reuse", "big", "soak", "memo", "subst", "compose", "constrain", "restrict", "itec", "count", "export", "table", "cache", "raw", "eda",
+    "mk", "ite3", "conn", "hist", "gc_chain", "gc_reuse", "big", "soak", "memo", "subst", "compose", "constrain", "restrict", "itec", "count", "export", "table", "cache", "kcache", "raw", "eda", "hugevar",
 ];
